@@ -69,6 +69,8 @@ func checkC12(P *core.Program, R *core.Report) {
 	checkSubTotalShape(P, R)
 	checkAddCommittedShape(P, R)
 	checkDeductGuards(P, R)
+	checkEntryRemoval(P, R)
+	checkLockupSet(P, R)
 	checkLiquidationFlag(P, R)
 	checkSnapshotWriteBack(P, R, "C12-fresh-writeback", subjects, "x/commitment/keeper.Keeper.GetParams", "x/commitment/keeper.Keeper.SetParams")
 	// the per-account record: a Commitments snapshot written back after a call (a hook, a
@@ -450,4 +452,150 @@ func checkAddCommittedShape(P *core.Program, R *core.Report) {
 	}
 	R.Add("C12-helper-shape", key, "+amount on both branches; lock-ups", P.Pos(fn.Pos()), bad == "" && nAmt == 2 && nLock == 2,
 		"AddCommittedTokens must add amount to the committed entry (existing or new) and record a lock-up of exactly amount when unlockTime != 0. "+bad)
+}
+
+// removeAtIndex recognises the slice-entry removal idiom append(s[:i], s[i+1:]...) and
+// returns the address the slice was loaded from and the index value i.
+func removeAtIndex(ff *core.FuncFacts, v ssa.Value) (loc ssa.Value, idx ssa.Value, ok bool) {
+	c, isCall := ff.Fwd(v).(*ssa.Call)
+	if !isCall || core.CalleeName(c.Common()) != "append" || len(c.Common().Args) != 2 {
+		return nil, nil, false
+	}
+	head, ok1 := ff.Fwd(c.Common().Args[0]).(*ssa.Slice)
+	tail, ok2 := ff.Fwd(c.Common().Args[1]).(*ssa.Slice)
+	if !ok1 || !ok2 || head.Low != nil || head.High == nil || tail.High != nil || tail.Low == nil {
+		return nil, nil, false
+	}
+	lh, okh := head.X.(*ssa.UnOp)
+	lt, okt := tail.X.(*ssa.UnOp)
+	if !okh || !okt || lh.Op != token.MUL || lt.Op != token.MUL || !sameLocation(ff, lh.X, lt.X) {
+		return nil, nil, false
+	}
+	bo, isBo := ff.Fwd(tail.Low).(*ssa.BinOp)
+	if !isBo || bo.Op != token.ADD {
+		return nil, nil, false
+	}
+	k, isK := bo.Y.(*ssa.Const)
+	if !isK || k.Value == nil || k.Value.ExactString() != "1" || ff.Fwd(bo.X) != ff.Fwd(head.High) {
+		return nil, nil, false
+	}
+	return lh.X, ff.Fwd(head.High), true
+}
+
+// checkEntryRemoval (C12-entry-removal): DeductFromCommitted drops a committed-token entry
+// only by removing the element it has just emptied: every store that replaces
+// c.CommittedTokens is append(tokens[:i], tokens[i+1:]...) with i the very index whose
+// Amount was lowered.  Dropping any other element (the last one, say) deletes another
+// denom's committed balance from the account while the chain-wide total and the custody
+// keep it.
+func checkEntryRemoval(P *core.Program, R *core.Report) {
+	const rule = "C12-entry-removal"
+	const key = "x/commitment/types.Commitments.DeductFromCommitted"
+	fn := P.Fn(key)
+	if fn == nil {
+		R.Add(rule, key, "function", "-", false, "unresolved anchor")
+		return
+	}
+	ff := P.Facts(fn)
+	// index of the element whose Amount is lowered
+	var updIdx ssa.Value
+	for _, b := range fn.Blocks {
+		for _, in := range b.Instrs {
+			st, ok := in.(*ssa.Store)
+			if !ok {
+				continue
+			}
+			fa, ok := st.Addr.(*ssa.FieldAddr)
+			if !ok || core.FieldName(fa.X.Type(), fa.Field) != "Amount" {
+				continue
+			}
+			x := fa.X
+			if ld, ok := x.(*ssa.UnOp); ok && ld.Op == token.MUL {
+				x = ld.X // a slice of pointers: the element is loaded first
+			}
+			if ia, ok := x.(*ssa.IndexAddr); ok {
+				updIdx = ff.Fwd(ia.Index)
+			}
+		}
+	}
+	n := 0
+	for _, b := range fn.Blocks {
+		for _, in := range b.Instrs {
+			st, ok := in.(*ssa.Store)
+			if !ok {
+				continue
+			}
+			fa, ok := st.Addr.(*ssa.FieldAddr)
+			if !ok || core.FieldName(fa.X.Type(), fa.Field) != "CommittedTokens" {
+				continue
+			}
+			n++
+			loc, idx, isRm := removeAtIndex(ff, st.Val)
+			if os.Getenv("ELYSLINT_POLY_DEBUG") != "" {
+				fmt.Fprintf(os.Stderr, "c12 removal: val=%s fwd=%s isRm=%v idx=%v updIdx=%v\n", st.Val, ff.Fwd(st.Val), isRm, idx, updIdx)
+			}
+			good := isRm && updIdx != nil && idx == updIdx && sameLocation(ff, loc, st.Addr)
+			R.Add(rule, key, "replacement of CommittedTokens", P.Pos(P.InstrPos(st)), good,
+				"the list may only shrink by removing the element whose amount was just lowered: append(tokens[:i], tokens[i+1:]...) with the same i")
+		}
+	}
+	if n == 0 {
+		R.Add(rule, key, "replacement of CommittedTokens", P.Pos(fn.Pos()), true, "the list is never replaced (emptied entries stay as zero entries)")
+	}
+}
+
+// checkLockupSet (C12-lockup-set): shares of an oracle pool are committed under a one-hour
+// lock.  In MintPoolShareToAccount the lock argument of CommitLiquidTokens may be zero only
+// on paths where the pool THE SHARES ARE MINTED FOR (the parameter) is not an oracle pool —
+// not where some other lookup (the stored pool, which does not exist yet when CreatePool
+// mints the creator's shares) says so.
+func checkLockupSet(P *core.Program, R *core.Report) {
+	const rule = "C12-lockup-set"
+	const key = "x/amm/keeper.Keeper.MintPoolShareToAccount"
+	fn := P.Fn(key)
+	if fn == nil {
+		R.Add(rule, key, "function", "-", false, "unresolved anchor")
+		return
+	}
+	ff := P.Facts(fn)
+	n := 0
+	for _, c := range core.Calls(fn) {
+		if core.CalleeName(c.Common()) != "CommitLiquidTokens" {
+			continue
+		}
+		args := c.Common().Args
+		lock := args[len(args)-1]
+		n++
+		bad := ""
+		nonZero := 0
+		for _, vc := range ff.CasesOf(lock, nil, 3) {
+			k, isConst := vc.Val.(*ssa.Const)
+			if !isConst || k.Value == nil || k.Value.ExactString() != "0" {
+				nonZero++
+				continue
+			}
+			ok := false
+			for _, a := range vc.Facts {
+				if a.Rel != core.FALSE {
+					continue
+				}
+				for _, o := range ff.Origins(a.A) {
+					// the parameter, or its spill slot when a pointer-receiver method is called on it
+					if (o.Kind == "param" || o.Kind == "local") && len(fn.Params) > 2 && o.Name == fn.Params[2].Name() && strings.HasSuffix(o.Path, ".PoolParams.UseOracle") {
+						ok = true
+					}
+				}
+			}
+			if !ok {
+				bad = "the lock is zero on a path that does not establish that the pool handed in is not an oracle pool"
+			}
+		}
+		if nonZero == 0 {
+			bad = "no path commits the shares under a lock"
+		}
+		R.Add(rule, key, "lock-up of minted shares", P.Pos(P.InstrPos(c.(ssa.Instruction))), bad == "", "oracle-pool shares are committed with a lock; "+bad)
+	}
+	if n == 0 {
+		R.Add(rule, key, "CommitLiquidTokens", P.Pos(fn.Pos()), false, "commit call not found (anchor changed)")
+	}
 }
